@@ -46,6 +46,9 @@ THEOREMS = ['C18_run_fresh_state', 'C18_history_independent',
             'C18_deterministic_model', 'C18_full_run_fresh_state',
             'C18_full_history_independent',
             'C18_full_deterministic_model', 'C18_upstream_state_relevant',
+            'C18_stage_history_independent',
+            'C18_leaky_stage_depends_on_history', 'C18_stage_shapes_linked',
+            'C18_history_independent_linked',
             'C18_volume_text_order_irrelevant',
             'C18_remove_keys_order_irrelevant',
             'C18_sorted_depends_on_set_only',
